@@ -800,9 +800,15 @@ Definition exclusive (l : list handle) (k : nat) : bool :=
   end.
 Definition is_view (l : list handle) (k : nat) : bool :=
   match nth_error l k with Some (HView _ _ _) => true | _ => false end.
+Definition same_cell (l : list handle) (a b : nat) : bool :=
+  match nth_error l a, nth_error l b with
+  | Some x, Some y => Nat.eqb (hcell x) (hcell y)
+  | _, _ => false
+  end.
 Definition kind_at (vst : store) (k : nat) : bool :=       (* true = multi-phase *)
   match nth_error vst k with Some (MS _) => true | _ => false end.
-(* which streams an operation writes to; sub-streams are not used as receivers, and a history stops once a
+(* which streams an operation writes to; sub-streams are receivers of separate_out, copy_flow and scale only
+   (not of mix_from / split_to, which set the receiver's phase), and a history stops once a
    linked MultiStream is out of step with its rows (the phases tuple and the rows list differ in length) *)
 Definition synced (s : stream) : bool :=
   match s with SS _ => true | MS m => Nat.eqb (length (mphases m)) (length (mrows m)) end.
@@ -820,10 +826,13 @@ Definition safe_op (l : list handle) (vst : store) (o : op) : bool :=
     negb (eb && negb (Nat.eqb hf 0) && existsb shares_r ins) &&
     negb (kind_at vst r && existsb (fun i => shares_r i && negb (is_view l i)) ins)
   | OSplit _ s1 s2 _ _ => negb (is_view l s1) && negb (is_view l s2)
-  | OSep r _ => negb (is_view l r)
-  | OCopyFlow d _ _ _ _ => negb (is_view l d)
+  (* a sub-stream multistream[p] as the receiver of separate_out / copy_flow / scale: its ChemicalIndexer wraps the
+     row object, all three write that row in place and leave the (locked) phase alone.  copy_flow into a sub-stream
+     from a stream on the same flow data stays outside (the source is written back after the receiver) *)
+  | OSep r _ => true
+  | OCopyFlow d s _ _ _ => negb (is_view l d) || negb (same_cell l d s)
   | OCopyFlowM d _ _ _ _ _ => negb (is_view l d)
-  | OScale i _ => negb (is_view l i)
+  | OScale i _ => true
   | OMul _ _ => true
   end.
 (* Does the operation REPLACE the indexer of target k (phases setters), and what does it leave in the old
@@ -927,6 +936,39 @@ Definition write_back (a : astore) (k : nat) (s' : stream) : res astore :=
     end
   | None => Err EIndex
   end.
+(* the phases a MultiStream's NEW indexer has at the moment its phases setter re-attaches the cached sub-streams:
+   for split_to the outlet's final phases; for the multi-phase fallback of mix_from the phases given to the setter -
+   the second mix may expand them afterwards, and a sub-stream stays on the row object it was given *)
+Definition mix_bind_phases (st : store) (r : nat) (ins : list nat) (eb : bool) (hf : nat) : option (list phase) :=
+  match gets st r, gets_all st ins with
+  | Ok rs, Ok all =>
+    match filter (fun js => negb (isempty (snd js))) all with
+    | [] => None
+    | [js] => None
+    | ne =>
+      if eb then
+        match imol_mix_from rs (map to_inl_copy ne) with
+        | Ok r1 =>
+          match set_H hf r1 with
+          | (r2, _, false) =>
+            match set_phases r2 (phase_str r2 ++
+                    flat_map (fun js => if Nat.eqb r (fst js) then phase_str r2 else phase_str (snd js)) all) with
+            | Ok (MS m3) => Some (mphases m3)
+            | _ => None
+            end
+          | _ => None
+          end
+        | Err _ => None
+        end
+      else None
+    end
+  | _, _ => None
+  end.
+Definition bind_phases (vst : store) (o : op) (m' : mindexer) : list phase :=
+  match o with
+  | OMix r ins eb hf => match mix_bind_phases vst r ins eb hf with Some p => p | None => mphases m' end
+  | _ => mphases m'
+  end.
 Definition write_target (a : astore) (vst vst' : store) (o : op) (k : nat) : res astore :=
   do s' <- gets vst' k;
   match rebind_info vst o k with
@@ -939,8 +981,8 @@ Definition write_target (a : astore) (vst vst' : store) (o : op) (k : nat) : res
     let follow := fun h =>
       match nth_error (hs a) k, s', h with
       | Some (HCell j), MS m', HView j' p lbl =>      (* streams[lbl]._imol = imol.get_phase(lbl) *)
-        if Nat.eqb j j' && in_indexer lbl (mphases m') && kind_at vst k
-        then HView n (if pmem lbl (mphases m') then lbl else swapcase lbl) lbl else h
+        if Nat.eqb j j' && in_indexer lbl (bind_phases vst o m') && kind_at vst k
+        then HView n (if pmem lbl (bind_phases vst o m') then lbl else swapcase lbl) lbl else h
       | _, _, _ => h
       end in
     Ok (mka (cells a1 ++ [s']) (upd (map follow (hs a1)) k (HCell n)))
